@@ -103,6 +103,22 @@ func (fr *Frame) loopCut(b *ssa.BasicBlock, ord int, ci *cfgInfo) {
 	if eff.alloc || eff.all {
 		fr.bumpTop()
 	}
+	if eff.all && fr.ownBoxes != nil {
+		for _, lb := range ci.body[b] {
+			for _, in := range lb.Instrs {
+				if call, ok := in.(ssa.CallInstruction); ok {
+					for _, a := range call.Common().Args {
+						if v, ok := fr.env[a]; ok {
+							fr.markEscaped(v)
+						}
+					}
+					if v, ok := fr.env[call.Common().Value]; ok {
+						fr.markEscaped(v)
+					}
+				}
+			}
+		}
+	}
 	if eff.all {
 		fr.havocAllHeap()
 	} else {
